@@ -123,6 +123,15 @@ impl<'a> BTreeIterator<'a> {
 	fn iter_inner(&mut self, direction: IterDirection) -> IterResult {
 		let col = self.col;
 
+		// Nothing lies before the start position or after the end position. Without this the
+		// commit overlay answers `None` here while the backend cursor wraps around, so the
+		// result would depend on which stage currently holds the data.
+		match (&self.last_key, direction) {
+			(LastKey::Start, IterDirection::Backward) | (LastKey::End, IterDirection::Forward) =>
+				return Ok(None),
+			_ => (),
+		}
+
 		loop {
 			// Lock log over function call (no btree struct change).
 			let commit_overlay = self.commit_overlay.read();
